@@ -270,16 +270,13 @@ impl PubSubManager {
     /// Returns list of (connection_id, matching_pattern) for all subscribers
     pub fn publish(&self, channel: &[u8], _message: &[u8]) -> Result<Vec<(u64, Option<Vec<u8>>)>> {
         let mut receivers = Vec::new();
-        let mut seen_connections = HashSet::new();
         
         // Find direct channel subscribers
         {
             let channel_subs = self.channels.lock().unwrap();
             if let Some(subscribers) = channel_subs.get(channel) {
                 for &conn_id in subscribers {
-                    if seen_connections.insert(conn_id) {
-                        receivers.push((conn_id, None));
-                    }
+                    receivers.push((conn_id, None));
                 }
             }
         }
@@ -289,10 +286,9 @@ impl PubSubManager {
             let pattern_subs = self.patterns.lock().unwrap();
             for (pattern, subscribers) in pattern_subs.iter() {
                 if pattern_matches(pattern, channel) {
+                    // One delivery per matching subscription, not per client
                     for &conn_id in subscribers {
-                        if seen_connections.insert(conn_id) {
-                            receivers.push((conn_id, Some(pattern.clone())));
-                        }
+                        receivers.push((conn_id, Some(pattern.clone())));
                     }
                 }
             }
